@@ -1254,6 +1254,44 @@ func (c *Ctx) verifyCores() (cores []*ssa.Function, regionOf map[*ssa.Function]m
 // site of that helper in the region, recursively up to top.
 func liftPaths(v ssa.Value, top *ssa.Function, regionFns []*ssa.Function, depth int) []flow.AccessPath {
 	ap := flow.PathOf(v)
+	// the object may have been made by a helper of the region that returns it (unmarshalGolden(bytes) (*T, error)):
+	// the root is then the one object every non-nil return of that helper hands out
+	if depth <= 4 {
+		src, idx := ap.Root, 0
+		if ex, ok := src.(*ssa.Extract); ok {
+			src, idx = ex.Tuple, ex.Index
+		}
+		if hc, ok := src.(*ssa.Call); ok {
+			if h := hc.Call.StaticCallee(); h != nil && h.Blocks != nil {
+				in := false
+				for _, f := range regionFns {
+					if f == h {
+						in = true
+					}
+				}
+				if in {
+					var obj ssa.Value
+					one := true
+					for _, hb := range h.Blocks {
+						ret, ok := hb.Instrs[len(hb.Instrs)-1].(*ssa.Return)
+						if !ok || idx >= len(ret.Results) {
+							continue
+						}
+						if k, isK := ret.Results[idx].(*ssa.Const); isK && k.IsNil() {
+							continue
+						}
+						if obj != nil && obj != ret.Results[idx] {
+							one = false
+						}
+						obj = ret.Results[idx]
+					}
+					if _, isAlloc := obj.(*ssa.Alloc); isAlloc && one {
+						return []flow.AccessPath{{Root: obj, Fields: ap.Fields}}
+					}
+				}
+			}
+		}
+	}
 	prm, ok := ap.Root.(*ssa.Parameter)
 	if !ok || prm.Parent() == top || depth > 4 {
 		return []flow.AccessPath{ap}
